@@ -24,11 +24,11 @@ def tiff_life(timeout=1500):
 
 def tiffjson_life(timeout=1500, meta=1):
     fsz = 16 + 1 * (8 + 320 + 8 + 8 + 8 + 16 + 16) + 64
-    h = tc.tiff_h(H, VERIF, "tiffjson_life_m%d" % meta, ["MODE=16", "NFRAMES=1", "DESC=12", "FILE_URI=0", "SBS_META=%d" % meta], unwind=18, timeout=timeout,
+    h = tc.tiff_h(H, VERIF, "tiffjson_life_m%d" % meta, ["MODE=16", "NFRAMES=1", "DESC=12", "FILE_URI=0", "SBS_META=%d" % meta, "LIFE_SHORT=1"], unwind=18, timeout=timeout,
                   unwindset={"file_write.0": fsz + 1}, rec_violation=True, composite=True)
     h.est_gb = 18
-    h.what = "tiff-json composite (init/append/stop/destroy translated from side-by-side-tiff.cpp, set/start modelled after the source, guarded by a source-text check) around the translated tiff writer, through the HAL: set? start? append? append? stop? stop? close with failing file_create and write failures at symbolic indices (metadata.json and data.tif)"
-    h.bounds = dict(calls="sub-sequences of set,start,append,append,stop,stop + close", write_fail_index="-1..8 one-shot and persistent", create_fail="yes/no", metadata="present" if meta else "absent")
+    h.what = "tiff-json composite (init/append/stop/destroy translated from side-by-side-tiff.cpp, set/start modelled after the source, guarded by a source-text check) around the translated tiff writer, through the HAL: set? start? append? stop? close with failing file_create and write failures at symbolic indices (metadata.json and data.tif)"
+    h.bounds = dict(calls="sub-sequences of set,start,append,stop + close", write_fail_index="-1..8 one-shot and persistent", create_fail="yes/no", metadata="present" if meta else "absent")
     return h
 
 def harnesses(tier, findings):
